@@ -299,6 +299,8 @@ def run(P, R, tier):
     slots_rule(P, R)
     si_rule(P, R)
     readout_rule(P, R)
+    logkdone_rule(P, R)
+    mbnorm_rule(P, R)
 
 
 # ------------------------------------------------------------------------------------------ log K(T, P)
@@ -868,3 +870,66 @@ def readout_rule(P, R):
                     R.violation("C01.readout", inst, "pH is written as %s instead of -log a(H+)" % T.text(val)[:80], file=f["file"], line=c[1], function=f["q"])
     if n < 2:
         R.anchor_missing("C01.readout", "fewer than 2 pH writers found (%d)" % n)
+
+
+def logkdone_rule(P, R):
+    """"log K(T) as the database text prescribes (log_k / delta_h / analytic / add_logk)": tidy_logk rebuilds every named expression from its
+    own terms (select_log_k_expression) and then folds the expressions it refers to through -add_logk into it (add_logks), once per
+    expression: the member logk::done gates the folding and add_logks sets it.  tidy_logk runs again in every later input that contains
+    a NAMED_EXPRESSIONS block; it must therefore clear `done` for every expression in the loop that rebuilds it - otherwise the rebuilt
+    expressions keep only their own terms and every species or phase that uses a composite expression silently loses the referenced part."""
+    RULE = "C01.logkdone"
+    R.rule(RULE, "tidy_logk clears logk::done for every expression it rebuilds, before the loop that folds the -add_logk references", minimum=1)
+    f = P.one("Phreeqc::tidy_logk")
+    gates = [x for x in T.walk(f["body"]) if x[0] == "If" and any(y[0] == "Member" and y[2] == "logk::done" for y in T.walk(x[2]))
+             and any(T.callee_name(c) == "add_logks" for c in T.calls(x[3]))]
+    rebuild = [lp for lp in T.walk(f["body"]) if lp[0] == "For" and any(T.callee_name(c) == "select_log_k_expression" for c in T.calls(lp[5]))]
+    if len(gates) != 1 or len(rebuild) != 1:
+        R.anchor_missing(RULE, "tidy_logk: %d gated add_logks calls, %d rebuilding loops" % (len(gates), len(rebuild)))
+        return
+    body = rebuild[0][5]
+    stmts = body[2] if T.is_node(body) and body[0] == "Compound" else [body]
+    clear = [st for st in stmts if T.is_node(st) and st[0] == "Bin" and st[2] == "=" and any(y[0] == "Member" and y[2] == "logk::done" for y in T.walk(st[3]))
+             and T.lit_value(T.strip_casts(st[4])) == 0]
+    if clear and clear[0][1] < gates[0][1]:
+        R.ok(RULE, "tidy_logk", "done = FALSE at line %d, unconditionally in the rebuilding loop, before the folding loop (line %d)" % (clear[0][1], gates[0][1]))
+    else:
+        R.violation(RULE, "tidy_logk", "tidy_logk rebuilds every named expression from its own terms but does not clear logk::done: on a second pass (any later NAMED_EXPRESSIONS block) the "
+                    "-add_logk references are not folded in again and composite expressions lose the referenced part", file=f["file"], line=rebuild[0][1], function=f["q"])
+
+
+def mbnorm_rule(P, R):
+    """"Species molalities weighted by stoichiometry add up to the reported element totals": a species with -mole_balance lists the
+    valence states it belongs to; build_species_list weights each entry with the number of atoms in the master species of that state
+    (master::coef: 2 for H2, O2, N2), so tidy_species divides the listed coefficient by that number first.  The division must be applied to
+    every listed state - also to the valence states of H and O, which the same loop additionally adds to species::h / species::o.
+    Structurally: the statement `next_secondary[j].coef /= master->coef` is not in the else-part of a test for the H+ / H2O master."""
+    RULE = "C01.mbnorm"
+    R.rule(RULE, "tidy_species: the division of a -mole_balance coefficient by master::coef is applied to the valence states of H and O too", minimum=1)
+    f = P.one("Phreeqc::tidy_species")
+    found = []
+
+    def rec(node, in_else_of):
+        if not T.is_node(node):
+            return
+        if node[0] == "Bin" and node[2] == "/=" and any(y[0] == "Member" and y[2] == "elt_list::coef" for y in T.walk(node[3])) and any(
+                y[0] == "Member" and y[2] == "master::coef" for y in T.walk(node[4])):
+            found.append((node, list(in_else_of)))
+        if node[0] == "If":
+            rec(node[2], in_else_of)
+            rec(node[3], in_else_of)
+            rec(node[4], in_else_of + [node[2]])
+            return
+        for ch in T.children(node):
+            rec(ch, in_else_of)
+    rec(f["body"], [])
+    if len(found) != 1:
+        R.anchor_missing(RULE, "tidy_species: %d statements divide a -mole_balance coefficient by master::coef" % len(found))
+        return
+    node, conds = found[0]
+    hw = [c for c in conds if any(y[0] == "Member" and y[2] in ("Phreeqc::s_hplus", "Phreeqc::s_h2o", "Phreeqc::s_h3oplus") for y in T.walk(c))]
+    if hw:
+        R.violation(RULE, "tidy_species", "the division by master::coef (line %d) is in the else-part of `%s`: for H(0) and O(0) of a -mole_balance species it is skipped, and HD, HT, O[18O] "
+                    "are counted twice in the H(0) / O(0) totals" % (node[1], T.text(hw[0])[:60]), file=f["file"], line=node[1], function=f["q"])
+    else:
+        R.ok(RULE, "tidy_species", "division at line %d is applied to every listed valence state" % node[1])
